@@ -196,11 +196,20 @@ func Row(r *gripql.QueryResult) map[string]interface{} {
 	case *gripql.QueryResult_Count:
 		return map[string]interface{}{"k": "c", "n": x.Count}
 	case *gripql.QueryResult_Render:
+		if x.Render == nil {
+			return map[string]interface{}{"k": "r", "nil": true}
+		}
 		return map[string]interface{}{"k": "r", "v": val.Encode(x.Render.AsInterface())}
 	case *gripql.QueryResult_Path:
+		if x.Path == nil {
+			return map[string]interface{}{"k": "p", "nil": true}
+		}
 		return map[string]interface{}{"k": "p", "p": x.Path.AsSlice()}
 	case *gripql.QueryResult_Selections:
 		m := map[string]interface{}{}
+		if x.Selections == nil {
+			return map[string]interface{}{"k": "s", "nil": true}
+		}
 		for k, s := range x.Selections.Selections {
 			switch y := s.Result.(type) {
 			case *gripql.Selection_Vertex:
@@ -211,6 +220,9 @@ func Row(r *gripql.QueryResult) map[string]interface{} {
 		}
 		return map[string]interface{}{"k": "s", "m": m}
 	case *gripql.QueryResult_Aggregations:
+		if x.Aggregations == nil {
+			return map[string]interface{}{"k": "a", "nil": true}
+		}
 		return map[string]interface{}{"k": "a", "name": x.Aggregations.Name, "key": val.Encode(x.Aggregations.Key.AsInterface()), "value": x.Aggregations.Value}
 	}
 	return map[string]interface{}{"k": "nil"}
